@@ -300,3 +300,21 @@ def np_spelled(item, rng, p=0.25):
     if isinstance(item, str):
         return np.str_(item)
     return item
+
+
+def big_universe(fd, rng):
+    """a few LONG dimensions (tens to hundreds of items): large arrays reach size-dependent code paths"""
+    n = {"a": int(rng.integers(30, 60)), "b": int(rng.integers(40, 120)), "c": int(rng.integers(20, 40)), "d": int(rng.integers(3, 9))}
+    start = int(rng.integers(1900, 2000))
+    return {
+        "a": fd.Dimension(letter="a", name=NAMES["a"], items=[f"a{i:03d}" for i in rng.permutation(n["a"])], dtype=str),
+        "b": fd.Dimension(letter="b", name=NAMES["b"], items=[start + i for i in range(n["b"])], dtype=int),
+        "c": fd.Dimension(letter="c", name=NAMES["c"], items=[f"c{i}" for i in range(n["c"])]),
+        "d": fd.Dimension(letter="d", name=NAMES["d"], items=[i + 0.5 for i in range(n["d"])]),
+    }
+
+
+def big_values(rng, shape, regime):
+    if regime == "dyadic":
+        return rng.integers(-2048, 2049, size=shape).astype(float) / 8.0
+    return rng.standard_normal(size=shape) * 10.0 ** rng.uniform(-2, 4, size=shape)
